@@ -199,7 +199,7 @@ class Run:
     def _check_baseline(self):
         """Vacuity/stability guard: obligation names recorded on the pinned tree must still be generated."""
         p = os.path.join(VERIF, "baselines", self.prop + ".json")
-        names = sorted(set(_stable_name(o.name) for o in self.obligations))
+        names = sorted(set(x for x in (_stable_name(o.name) for o in self.obligations) if x))
         if os.environ.get("VERIF_WRITE_BASELINE") == "1":
             old = {}
             if os.path.exists(p):
@@ -288,7 +288,9 @@ def _stable_name(n):
     # E2 wrapper names: drop the configuration (width/container/order/backing/enum type) and counts
     n = re.sub(r"^((?:read|write)_[a-z]+)_[A-Za-z0-9]+_w\d+_c\d+_[A-Za-z]+_[a-z]+\.", r"\1.", n)
     n = re.sub(r"^(write_bcdwide)_w\d+_c\d+_[A-Za-z]+_[a-z]+\.", r"\1.", n)
-    n = re.sub(r"\.(trap|bounds|flag|unwind)(\[\d+\]|:.*)$", r".\1", n)
+    if re.search(r"\.(flag|unwind)(\[\d+\]|:.*)$", n):
+        return None            # presence depends on the optimiser's output, not on the contract
+    n = re.sub(r"\.(trap|bounds)(\[\d+\]|:.*)$", r".\1", n)
     n = re.sub(r"\.[A-Za-z_0-9]+\.(assert|call-pre|no-raise)$", ".code-obligations", n)
     n = re.sub(r"\.(assert|call-pre|no-raise)$", ".code-obligations", n)
     return n
